@@ -51,3 +51,32 @@ class PopLoop(py4hw.Logic):
             n += x & 1
             x >>= 1
         self.r.put(n)
+
+
+class LocalAR(py4hw.Logic):
+    """a transpiled leaf whose local variables are called like the ports of ScaleK (a, r)"""
+
+    def __init__(self, parent, name, x, y):
+        super().__init__(parent, name)
+        self.x = self.addIn('x', x)
+        self.y = self.addOut('y', y)
+
+    def propagate(self):
+        a = self.x.get() + 1
+        r = a * 3
+        self.y.put(r & 65535)
+
+
+class DecoyPorts(py4hw.Logic):
+    """a transpiled leaf whose ports carry the names that generated C02 programs use for locals, state and constants"""
+
+    def __init__(self, parent, name, x0, x1, s0, k0, q):
+        super().__init__(parent, name)
+        self.x0 = self.addIn('x0', x0)
+        self.x1 = self.addIn('x1', x1)
+        self.s0 = self.addIn('s0', s0)
+        self.k0 = self.addIn('k0', k0)
+        self.q = self.addOut('q', q)
+
+    def propagate(self):
+        self.q.put((self.x0.get() + self.x1.get() + self.s0.get() + self.k0.get()) & 255)
